@@ -2908,7 +2908,7 @@ class Word(Token):
             self.errmsg += " as a keyword"
 
         # see if we can make a regex for this Word
-        if " " not in (self.initChars | self.bodyChars):
+        if self.initChars and " " not in (self.initChars | self.bodyChars):
             if len(self.initChars) == 1:
                 re_leading_fragment = re.escape(self.initCharsOrig)
             else:
